@@ -77,6 +77,7 @@ func init() {
 			"solo reference = the same thread program run alone, on a fresh instance of the scenario with privately compiled scripts, in a FRESH PROCESS of this binary (nothing else of otto ran in it); the same thread run alone in the worker process (after other runtimes ran there) must give the same log (key <case>@solo), which also establishes that the bodies are deterministic",
 			"pkgstate is a syntactic inventory (go/parser, no type checker) of the package-level variables of the source tree the binary was built from: a write through an alias or inside a method of the variable's own type is not seen",
 			"bridged Go values: the Go data behind a slice/map/pointer set on a template is the embedder's and common to all copies by construction; the probes only read it (and set the slice LENGTH, which is otto's own state); closures of reflected Go functions are opaque to the heap walk, their results are stored and walked",
+			"a function installed with SetRandomSource / SetDebuggerHandler is the embedder's, like a bridged Go function: Copy() hands the same Go func value to the copy by design, so a stateful source shared by template and copies is the embedder's shared state, not otto's; the harness gives every runtime its own source after Copy() and checks that changing it on one runtime does not reach the others",
 			"misuse (two goroutines on ONE runtime, registry.Enable/Disable concurrently with New) is outside the statement",
 		},
 		CrashIsViolation: true,
